@@ -60,6 +60,12 @@ CHECKS = {
         text="PROVED for all names, routes, keys and CRUD strings: every $ref written by components_paths_from_name_model_route_id_crud resolves to a component written on the same path or to ServerError (which emit.openapi defines first: rule-engine side condition), the request body is defined iff 'C' is requested, POST/GET/DELETE appear exactly under their letters and on the right route, the item route exists when only CRUD letters are given and declares its path parameter, and nothing else is written. "
              "BOUNDED only: openapi_bulk, gen_routes/upsert_routes and the bottle route parser, JSON serialisability, 'routes fed back describe the same model'. One known finding (multi-word model names).",
         note="Assumed: the model's JSON-schema carries no $ref; frozenset(a)-frozenset(b) modelled by an uninterpreted subset predicate; induction over the list of models in emit.openapi is argued from the frame + closure lemma (DESIGN §5 C16), with its side condition checked syntactically."),
+    "C13": dict(
+        category="other", design_ref="DESIGN.md §5 C13",
+        technique="contract-based deductive verification of a block contract (E1: access paths on uninterpreted AST objects, Seq views, z3) on the default-alignment arithmetic of RewriteAtQuery.visit_FunctionDef; whole-file AST diff over generated module pairs for the rest",
+        text="PROVED for all signatures: if sync_properties overwrites a default value it is the default of the target parameter itself (index + (len(args) - len(defaults)) == position, with the self/cls offset), never another parameter's, and that block leaves the parameter list alone; side conditions on annotate_ancestry's numbering and on the idx lookup are discharged syntactically. The original defect (fixed by 7adde57) is exactly a refutation of this lemma. "
+             "BOUNDED only: every other clause (nothing else in the file changes, input untouched, name/annotation/wrap/Literal taken over), over generated module pairs, several calls per process.",
+        note="The frame lemma over the args/kwonlyargs replacement loop promised in DESIGN (Seq with a quantified invariant) was not carried; it is covered only by the bounded AST diff."),
 }
 
 NA_REASON = "check not built yet (work in progress; see DESIGN.md for the plan)"
